@@ -200,17 +200,29 @@ func ReceiveSession(ctx context.Context, rw io.ReadWriter, state SessionState, n
 
 func setDeadline(ctx context.Context, conn net.Conn) context.CancelFunc {
 	cancelCtx, cancel := context.WithCancel(context.Background())
+	done := make(chan struct{})
 	go func() {
+		defer close(done)
 		select {
 		case <-ctx.Done():
 			/* #nosec */
 			conn.SetDeadline(aLongTimeAgo)
+			// Keep the deadline in force until the caller is finished with the
+			// connection: if it were cleared right away only an operation that is
+			// blocked at this very moment would be interrupted, and the next read
+			// would block again (or succeed) as if ctx had never been canceled.
+			<-cancelCtx.Done()
 			/* #nosec */
 			conn.SetDeadline(time.Time{})
 		case <-cancelCtx.Done():
 		}
 	}()
-	return cancel
+	return func() {
+		cancel()
+		// Wait until the deadline has been reset so that it can never be applied
+		// to (or linger on) a connection that the caller has already returned.
+		<-done
+	}
 }
 
 func setWriteDeadline(ctx context.Context, conn net.Conn) context.CancelFunc {
